@@ -107,7 +107,30 @@ def f_silent(x):
     return r
 
 
-FUNCS = dict(f_scalar=f_scalar, f_dict=f_dict, f_big=f_big, f_nutils=f_nutils, f_kw=f_kw, f_fails=f_fails, f_nested=f_nested, f_silent=f_silent)
+_SYSTEMS = {}
+
+
+def sys_solve(n, kappa, cons):
+    '''A real user of cache.function: solver.System.solve (decorated in nutils itself).'''
+    from nutils import solver, function
+    key = n
+    if key not in _SYSTEMS:
+        u = function.Argument('u', (n,))
+        k = function.Argument('kappa', ())
+        A = numpy.arange(n * n, dtype=float).reshape(n, n) / 8 + numpy.eye(n) * 3
+        res = (function.Array.cast(A) + k * function.Array.cast(numpy.eye(n))) @ u - function.Array.cast(numpy.arange(1, n + 1, dtype=float))
+        _SYSTEMS[key] = solver.System((res,), trial='u')
+    system = _SYSTEMS[key]
+    constrain = {}
+    if cons:
+        c = numpy.full(n, numpy.nan)
+        c[0] = 2.5
+        constrain = {'u': c}
+    # no enter/leave marks: the memoised body is nutils' own System.solve (J1/J2 are checked, J3 is not observable here)
+    return system.solve(arguments={'kappa': numpy.array(float(kappa))}, constrain=constrain)
+
+
+FUNCS = dict(f_scalar=f_scalar, f_dict=f_dict, f_big=f_big, f_nutils=f_nutils, f_kw=f_kw, f_fails=f_fails, f_nested=f_nested, f_silent=f_silent, sys_solve=sys_solve)
 
 
 class Fib(cache.Recursion, length=2):
